@@ -36,16 +36,82 @@ fn main() {
         "info" => {
             // debugging aid: headers of a file as the decoder sees them
             let data = std::fs::read(args.get(2).unwrap_or_else(|| usage())).expect("read file");
-            match jxl_oxide::JxlImage::builder().read(std::io::Cursor::new(&data[..])) {
-                Ok(img) => {
-                    let h = img.image_header();
-                    println!("image {}x{} metadata: {:?}", h.size.width, h.size.height, h.metadata);
-                    for i in 0..img.num_loaded_frames() {
-                        println!("frame {i} @{:?}: {:?}", img.frame_offset(i), img.frame(i).map(|f| f.header()));
+            // fed in small pieces so that frames loaded before an error are still listed
+            let mut uninit = Some(jxl_oxide::JxlImage::builder().build_uninit());
+            let mut image: Option<jxl_oxide::JxlImage> = None;
+            let mut pending: Vec<u8> = vec![];
+            for piece in data.chunks(16) {
+                pending.extend_from_slice(piece);
+                if let Some(img) = image.as_mut() {
+                    match img.feed_bytes(&pending) {
+                        Ok(c) => {
+                            pending.drain(..c);
+                        }
+                        Err(e) => {
+                            println!("feed error: {e}");
+                            break;
+                        }
                     }
-                    println!("loaded frames {} keyframes {} done {}", img.num_loaded_frames(), img.num_loaded_keyframes(), img.is_loading_done());
+                } else {
+                    let mut u = uninit.take().unwrap();
+                    match u.feed_bytes(&pending) {
+                        Ok(c) => {
+                            pending.drain(..c);
+                        }
+                        Err(e) => {
+                            println!("feed error (uninit): {e}");
+                            break;
+                        }
+                    }
+                    match u.try_init() {
+                        Ok(jxl_oxide::InitializeResult::Initialized(i)) => image = Some(i),
+                        Ok(jxl_oxide::InitializeResult::NeedMoreData(u)) => uninit = Some(u),
+                        Err(e) => {
+                            println!("init error: {e}");
+                            break;
+                        }
+                    }
                 }
-                Err(e) => println!("read error: {e}"),
+            }
+            if let Some(img) = image {
+                let h = img.image_header();
+                println!("image {}x{} metadata: {:?}", h.size.width, h.size.height, h.metadata);
+                for i in 0..img.num_loaded_frames() + 1 {
+                    println!("frame {i} @{:?}: {:?}", img.frame_offset(i), img.frame(i).map(|f| f.header()));
+                }
+                println!("loaded frames {} keyframes {} done {}", img.num_loaded_frames(), img.num_loaded_keyframes(), img.is_loading_done());
+            }
+        }
+        "gencorpus" => {
+            // gencorpus <dir> <n> <seed>: valid streams from the jxlref generators (+ 2 config bytes) as fuzzing seeds
+            let dir = std::path::PathBuf::from(args.get(2).unwrap_or_else(|| usage()));
+            let n: usize = args.get(3).and_then(|s| s.parse().ok()).unwrap_or(64);
+            let seed: u64 = args.get(4).and_then(|s| s.parse().ok()).unwrap_or(0);
+            std::fs::create_dir_all(&dir).expect("mkdir");
+            let mut x = seed.wrapping_mul(0x9E3779B97F4A7C15) | 1;
+            for i in 0..n {
+                let mut choice = vec![0u8; 4096];
+                for b in choice.iter_mut() {
+                    x ^= x << 13;
+                    x ^= x >> 7;
+                    x ^= x << 17;
+                    *b = (x >> 24) as u8;
+                }
+                let mut src = jxlref::src::Src::new(&choice);
+                let mut bytes = if i % 5 == 4 {
+                    jxlref::gen::jpeg::gen_jpeg_case(&mut src, &Default::default()).jxl
+                } else {
+                    let mut ao = jxlref::gen::stream::AnyOpts::default();
+                    ao.modular.max_dim = 128;
+                    ao.vardct.big_square = 0;
+                    ao.vardct.multi_lf_group = 0;
+                    jxlref::gen::stream::gen_any_file(&mut src, &ao).1.file
+                };
+                if bytes.len() > 8000 {
+                    continue;
+                }
+                bytes.extend_from_slice(&[(x >> 8) as u8, (x >> 16) as u8]);
+                std::fs::write(dir.join(format!("gen-{seed}-{i}")), &bytes).expect("write");
             }
         }
         "replay" => {
